@@ -4,7 +4,7 @@ C07 — model of the stopping machinery (L0 arithmetic core + the generation loo
 Mirrors, statement by statement,
 
 * `snowfakery/api.py`: `SnowfakeryApplication` (`stopping_tablename`, `ensure_progress_was_made`,
-  `check_if_finished`, class attributes `starting_id = 0`, `rep_count = 0`, default criteria
+  `check_if_finished`, class attributes `starting_id = None`, `rep_count = 0`, default criteria
   `StoppingCriteria(COUNT_REPS, 1)`),
 * `snowfakery/data_generator_runtime.py`: `IdManager.start_ids` (`{}` for a fresh run,
   `{name: val + 1}` after `__setstate__`), `RuntimeContext.check_if_finished`
@@ -13,10 +13,11 @@ Mirrors, statement by statement,
   target-table validation in `Interpreter.__init__`.
 
 An iteration is abstracted to the number of rows (= ids) of the target table it creates:
-`r : Nat → Nat`, `r i` for the `i`-th iteration (0-based) *of this run*.  The model mirrors what
-the code does, including two quirks: `starting_id` starts at `0` whatever the continuation says
-(D20) and the validation / progress check test the *truthiness* of the target name, so the empty
-name is neither rejected nor progress-checked (D28).
+`r : Nat → Nat`, `r i` for the `i`-th iteration (0-based) *of this run*.  The model follows the code
+after the repairs 96e00ac (D20: `starting_id` is `None` until the first boundary of a run, where it
+is initialised to `start_ids.get(T, 1) - 1`, the id the run started from) and 6604eb0 (D28: the
+validation tests `stop_table_name is not None`, so the empty name is rejected like any unknown
+table).  The progress check still tests the *truthiness* of the name (`not self.stopping_tablename`).
 
 Counts are naturals (a negative `count` is outside the model; the property speaks about N ≥ 1,
 the model also covers 0).  No Mathlib import: this file is linked into the driver.
@@ -37,12 +38,12 @@ def defaultCrit : Crit := ⟨COUNT_REPS, 1⟩
 
 /-- the two mutable attributes of `SnowfakeryApplication` -/
 structure App where
-  startingId : Nat
+  startingId : Option Nat
   repCount : Nat
   deriving Repr, DecidableEq
 
-/-- class attributes `starting_id = 0`, `rep_count = 0` -/
-def App.init : App := ⟨0, 0⟩
+/-- class attributes `starting_id = None`, `rep_count = 0` -/
+def App.init : App := ⟨none, 0⟩
 
 /-- `stopping_tablename`: the table name unless it is `COUNT_REPS` (then `None`). -/
 def stoppingTablename (c : Crit) : Option String :=
@@ -73,11 +74,19 @@ def targetId (start count : Nat) : Nat := start + count - 1
 /-- `return last_used_id >= target_id` -/
 def finishedRows (start count last : Nat) : Bool := decide (last ≥ targetId start count)
 
-/-- `ensure_progress_was_made(id_manager)`; `none` = `RuntimeError`. `last` is `id_manager[T]`. -/
-def ensureProgress (c : Crit) (app : App) (last : Nat) : Option App :=
+/-- `self.starting_id` as `ensure_progress_was_made` sees it: `None` (first boundary of the run) is
+    replaced by `id_manager.start_ids.get(T, 1) - 1`, the id the run started from. -/
+def sidOf (start : Nat) (app : App) : Nat :=
+  match app.startingId with
+  | none => start - 1
+  | some s => s
+
+/-- `ensure_progress_was_made(id_manager)`; `none` = `RuntimeError`. `last` is `id_manager[T]`,
+    `start` is `id_manager.start_ids.get(T, 1)`. -/
+def ensureProgress (c : Crit) (start : Nat) (app : App) (last : Nat) : Option App :=
   if !truthy (stoppingTablename c) then some app           -- `return False`
-  else if last = app.startingId then none                 -- `raise RuntimeError`
-  else some { app with startingId := last }               -- `self.starting_id = last_used_id`
+  else if last = sidOf start app then none                -- `raise RuntimeError`
+  else some { app with startingId := some last }          -- `self.starting_id = last_used_id`
 
 /-- `check_if_finished(id_manager)`: new application state and the verdict. -/
 def checkIfFinished (c : Crit) (start : Nat) (app : App) (last : Nat) : App × Bool :=
@@ -88,7 +97,7 @@ def checkIfFinished (c : Crit) (start : Nat) (app : App) (last : Nat) : App × B
 /-- `RuntimeContext.check_if_finished` after `check_slots_filled` succeeded:
     `ensure_progress_was_made` first, then `check_if_finished`. `none` = the run ends with an error. -/
 def boundary (c : Crit) (start : Nat) (app : App) (last : Nat) : Option (App × Bool) :=
-  match ensureProgress c app last with
+  match ensureProgress c start app last with
   | none => none
   | some app1 => some (checkIfFinished c start app1 last)
 
@@ -116,9 +125,10 @@ def loop (c : Crit) (start : Nat) (r : Nat → Nat) : Nat → Nat → Nat → Ap
     | some (app', true) => .finished (i + 1) last' app'
     | some (app', false) => loop c start r fuel (i + 1) last' app'
 
-/-- `Interpreter.__init__`: `if stop_table_name and stop_table_name not in parse_result.tables: raise` -/
+/-- `Interpreter.__init__`:
+    `if stop_table_name is not None and stop_table_name not in parse_result.tables: raise` -/
 def rejects (tables : List String) (c : Crit) : Bool :=
-  truthy (stoppingTablename c) && !(tables.contains c.tablename)
+  (stoppingTablename c).isSome && !(tables.contains c.tablename)
 
 /-- One run with explicit fuel. `tables` = names of the (visible) tables the recipe has templates
     for, `cont` = the target table's entry in the continuation, `r` = rows of the target table per
